@@ -198,7 +198,7 @@ def scripts_for(kind, quick):
     other = "up" if kind == "leave" else "down"
     for n in range(1, len(items) + 1):
         for perm in itertools.permutations(items, n):
-            for st in (("ok", "refuse") + (("notjoined",) if kind == "bringup" else ())):
+            for st in ("ok", "refuse", "notjoined"):        # NOT_JOINED: "not formed" for the bring-up, a refusal like any other for form / leave
                 for early in (False, True):
                     s = ([("status", match)] if early else []) + [("start",)]
                     if kind == "bringup":
